@@ -182,6 +182,18 @@ func buildWire(c *Ctx, root *ssa.Function, classify func(*wctx, ssa.Instruction)
 		for _, b := range ctx.fn.Blocks {
 			for _, in := range b.Instrs {
 				if l := classify(ctx, in); l != "" {
+					if len(l) > 1 && strings.Trim(l, "Bb") == "" {
+						// one instruction emitting several raw bytes (append(b, 0, 0)): a chain of B tokens
+						first := add(l[:1], in)
+						last := first
+						for k := 1; k < len(l); k++ {
+							nx := add(l[k:k+1], in)
+							last.succ[nx.id] = true
+							last = nx
+						}
+						stops[in] = stop{first, last}
+						continue
+					}
 					w := add(l, in)
 					stops[in] = stop{w, w}
 					continue
@@ -322,8 +334,21 @@ func wireInclusion(a, b *wireNFA) (ok bool, at *wireNode, expected []*wireNode, 
 			next := map[int]bool{}
 			for bn := range it.bs {
 				for s := range b.nodes[bn].succ {
-					if b.nodes[s].label == node.label {
+					if b.nodes[s].label == node.label || (node.label == "b" && b.nodes[s].label == "B") {
 						next[s] = true
+					}
+				}
+			}
+			if len(next) == 0 && node.label == "b" {
+				// "b": a constant byte below 128 is its own varint, so where no decoder position
+				// reads a raw byte it may be read back by the varint reader. Only then: letting it
+				// stand for U everywhere lets the count-agnostic header loop swallow whole records
+				// (the flag byte is what keeps the two automata in step).
+				for bn := range it.bs {
+					for s := range b.nodes[bn].succ {
+						if b.nodes[s].label == "U" {
+							next[s] = true
+						}
 					}
 				}
 			}
@@ -470,8 +495,8 @@ func encClassifier(c *Ctx, fn *ssa.Function, varintEnc string) func(*wctx, ssa.I
 		}
 		if sl, ok := y.(*ssa.Slice); ok {
 			if al, ok := sl.X.(*ssa.Alloc); ok {
-				if arr, ok := al.Type().Underlying().(*types.Pointer).Elem().Underlying().(*types.Array); ok && arr.Len() == 1 && isByte(arr.Elem()) {
-					return "B"
+				if arr, ok := al.Type().Underlying().(*types.Pointer).Elem().Underlying().(*types.Array); ok && arr.Len() >= 1 && arr.Len() <= 16 && isByte(arr.Elem()) && sl.Low == nil && sl.High == nil {
+					return byteOperandLabels(al, int(arr.Len())) // append(b, x, y, ...): one raw byte per operand
 				}
 			}
 		}
@@ -489,6 +514,41 @@ func encClassifier(c *Ctx, fn *ssa.Function, varintEnc string) func(*wctx, ssa.I
 		}
 		return "?"
 	}
+}
+
+// byteOperandLabels labels the k operands of append(b, x0, ..., xk-1) (held in the array al):
+// "b" for a constant below 128 (a byte that is also its own varint), "B" for any other byte.
+func byteOperandLabels(al *ssa.Alloc, k int) string {
+	out := []byte(strings.Repeat("B", k))
+	nstores := make([]int, k)
+	for _, ref := range *al.Referrers() {
+		ia, ok := ref.(*ssa.IndexAddr)
+		if !ok {
+			continue
+		}
+		ic, ok := ia.Index.(*ssa.Const)
+		if !ok || ic.Value == nil {
+			return strings.Repeat("B", k)
+		}
+		i := int(ic.Int64())
+		if i < 0 || i >= k {
+			continue
+		}
+		for _, r2 := range *ia.Referrers() {
+			if st, ok := r2.(*ssa.Store); ok && st.Addr == ssa.Value(ia) {
+				nstores[i]++
+				if cv, ok := st.Val.(*ssa.Const); ok && cv.Value != nil && cv.Uint64() < 128 {
+					out[i] = 'b'
+				}
+			}
+		}
+	}
+	for i := range out {
+		if nstores[i] != 1 {
+			out[i] = 'B'
+		}
+	}
+	return string(out)
 }
 
 func decClassifier(c *Ctx, varintDec string) func(*wctx, ssa.Instruction) string {
@@ -530,7 +590,7 @@ func ruleGrammar(c *Ctx, r *RuleResult, encName, decName, varintEnc, varintDec s
 			switch w.label {
 			case "U":
 				u++
-			case "B":
+			case "B", "b":
 				b++
 			case "?":
 				q++
@@ -1049,7 +1109,33 @@ func init() {
 			if c.FnOpt("(*dawg.Dawg).listNodesCountEdges") != nil {
 				ruleVisitOnce(c, vo, "(*dawg.Dawg).listNodesCountEdges")
 			}
-			return []*RuleResult{g, v, ow, fr, nl, gl, vo}
+			// BYTEWISE (C12's rule) for the codec: only what GobEncode / GobDecode and the varint pair do is judged here
+			bwAll := &RuleResult{Rule: "BYTEWISE"}
+			ruleBytewise(c, bwAll, "dawg")
+			bw := &RuleResult{Rule: "BYTEWISE", Doc: "labels are bytes on the wire and in the automaton: the codec (GobEncode, GobDecode, encodeUint64, decodeUint64) neither iterates a string with range nor converts between strings and runes, and builds no string with string(x) from a label byte whose bytes it reads back (a code-point conversion: a byte >= 0x80 becomes two)", MinInst: 2}
+			inCodec := func(s string) bool {
+				for _, n := range []string{"(*dawg.Dawg).GobEncode", "(*dawg.Dawg).GobDecode", "dawg.encodeUint64", "dawg.decodeUint64"} {
+					if strings.Contains(s, n+":") {
+						return true
+					}
+				}
+				return false
+			}
+			for _, in := range bwAll.Instances {
+				if inCodec(in) {
+					bw.Instances = append(bw.Instances, in)
+					bw.Obligations++
+					bw.Discharged++
+				}
+			}
+			for _, f := range bwAll.Findings {
+				if inCodec(f.Key + ":") {
+					bw.Findings = append(bw.Findings, f)
+					bw.Discharged--
+				}
+			}
+			bw.Undecided = bwAll.Undecided
+			return []*RuleResult{g, v, ow, fr, nl, gl, vo, bw}
 		},
 		controls: func(ctl *Ctx) []*RuleResult {
 			g := &RuleResult{Rule: "GRAMMAR"}
